@@ -724,8 +724,14 @@ func runC19(cx *CheckCtx) {
 			}
 			for _, s := range a.Sites(func(s *Site) bool { return strings.HasSuffix(s.Callee, ".AbortWithMessage") }) {
 				nRej++
-				q := append([]int32{a.litLtC(amt, 1), -a.litLtC(amt, maxGAS+1), -a.litEqC(a.litLen(data), 20)}, callerLits...)
-				if !a.holdsAt(s.In, q...) {
+				// an abort is incompatible with a documented deposit: 0 < amount ≤ 9000 GAS, caller GAS,
+				// data of 20 bytes or empty
+				units := []int32{-a.litLtC(amt, 1), a.litLtC(amt, maxGAS+1)}
+				for _, l := range callerLits {
+					units = append(units, -l)
+				}
+				clauses := [][]int32{{a.litEqC(a.litLen(data), 20), a.litEqC(a.litLen(data), 0)}}
+				if a.satisfiable(s.In, units, clauses) {
 					okRej = false
 				}
 			}
